@@ -1,22 +1,23 @@
-(* C09 — proofs, part 9: one step / every finite history over the operations proved so far *)
+(* C09 — proofs, part 9: one step / every finite history over the whole operation alphabet *)
 From Coq Require Import List ZArith QArith Bool Lia Arith.
 Import ListNotations.
 Require Import QV.common.Util QV.C09.Model QV.C09.Proofs QV.C09.Proofs2 QV.C09.Proofs3 QV.C09.Proofs4 QV.C09.Proofs5 QV.C09.Proofs6
-               QV.C09.Proofs7 QV.C09.Proofs8.
+               QV.C09.Proofs7 QV.C09.Proofs8 QV.C09.ProofsR.
 
 Definition simple_step (stp : option Z) : bool := match stp with None => true | Some z => (z =? 1)%Z end.
 
-(* operations whose preservation of the invariant is proved for all heaps, nodes and arguments *)
-Definition proved_op2 (o : op) : bool :=
+(* the argument domain: extended slices (explicit step other than 1) are not covered by the proof; roll_constant_waveforms
+   requires minimal_waveform_quanta >= 1 (Python raises ZeroDivisionError / loops on negative factors otherwise; the model
+   does not follow it there) *)
+Definition guard_C09_args (o : op) : bool :=
   match o with
-  | ONop | OSetWf _ _ | OSetRepCount _ _ | OSetRepDef _ _ | OQueryDur _ | OQueryBody _ | OEq _ _
-  | OAppend _ _ | OCopyAppend _ _ _ | OUnroll _ | OUnrollChildren _ | OMerge _ | OSetInt _ _ _ | OSplit _ _ | OEncapsulate _ => true
   | OSetSlice _ _ _ stp _ => simple_step stp
-  | _ => false
+  | ORoll _ mq _ _ => (1 <=? mq)%Z
+  | _ => true
   end.
 
-Lemma step_partial2 s o s' out :
-  sInv s -> proved_op2 o = true -> step s o = (s', out) -> out_ok out -> sInv s'.
+Lemma step_all s o s' out :
+  sInv s -> guard_C09_args o = true -> step s o = (s', out) -> out_ok out -> sInv s'.
 Proof.
   intros I PO H OK.
   destruct (proved_op' o) eqn:P1; [eapply step_partial'; eauto|].
@@ -33,13 +34,20 @@ Proof.
   - eapply run_at_inv; eauto. intros x h' res Rx Hk Okr. cbv beta in Hk. eapply split_inv; eauto.
   - eapply run_at_inv; eauto. intros x h' res Rx Hk Okr. cbv beta in Hk. eapply encapsulate_inv; eauto.
   - eapply run_at_inv; eauto. intros x h' res Rx Hk Okr. cbv beta in Hk. eapply try_merge_inv; eauto.
+  - eapply run_at_inv; eauto. intros x h' res Rx Hk Okr. cbv beta in Hk. rewrite fueled_eq in Hk.
+    eapply (cleanup_inv (st_root s)); eauto.
+  - eapply run_at_inv; eauto. intros x h' res Rx Hk Okr. cbv beta in Hk. rewrite fueled_eq in Hk.
+    eapply (reverse_inv (st_root s)); eauto.
+  - eapply run_at_inv; eauto. intros x h' res Rx Hk Okr. cbv beta in Hk. rewrite fueled_eq in Hk.
+    cbn in PO. apply Z.leb_le in PO. eapply (roll_inv (st_root s)); eauto.
+  - eapply run_at_inv; eauto. intros x h' res Rx Hk Okr. cbv beta in Hk. eapply eqcopy_inv; eauto.
 Qed.
 
-Lemma history_partial2 : forall ops s,
-  sInv s -> forallb proved_op2 ops = true -> run_ok s ops -> sInv (run s ops).
+Lemma history_all : forall ops s,
+  sInv s -> forallb guard_C09_args ops = true -> run_ok s ops -> sInv (run s ops).
 Proof.
   induction ops as [|o ops IH]; intros s I P OK; cbn in *; auto.
   apply andb_prop in P as (P1 & P2). destruct OK as (O1 & O2).
   destruct (step s o) as (s', out) eqn:St. cbn in *.
-  apply IH; auto. eapply step_partial2; eauto.
+  apply IH; auto. eapply step_all; eauto.
 Qed.
